@@ -393,7 +393,7 @@ fn main() {
                     "OK".to_string()
                 }
                 "CONSUME" => {
-                    if r.verif_consume() { "SOME".to_string() } else { "NONE".to_string() }
+                    if r.verif_consume() { "SOME".to_string() } else { format!("NONE {}", r.verif_ready_len()) }
                 }
                 "DRAIN" => {
                     let k: usize = t[1].parse().unwrap();
